@@ -60,6 +60,26 @@ def judge_ns(limit, s, a, true_log, ns_log):
     return None
 
 
+def lax_output(printed, limit, mode, use_async):
+    """Render under an output limit in LAX / WARN mode -> ('out', text) | ('err', class)."""
+    import warnings
+
+    from liquid import Mode
+
+    from ..core import run_async
+
+    src, parts, data = printed
+    env = L.make_env(L.Limits(out=limit), parts)
+    env.mode = getattr(Mode, mode)
+    with warnings.catch_warnings():
+        warnings.simplefilter("ignore")
+        try:
+            t = env.from_string(src)
+            return ("out", run_async(t.render_async(**data)) if use_async else t.render(**data))
+        except Exception as e:  # noqa: BLE001
+            return ("err", L.classify(e))
+
+
 def run(ck: Check) -> None:
     ck.rule = (
         "18 systematic nests + seeded random trees (depth <= 3, up to 3 children) over text with 1-4 byte characters, {{ var }}, assign, "
@@ -115,6 +135,20 @@ def run(ck: Check) -> None:
             ck.note_case((nest, lim.key()), nontrivial=S > 0)
             ck.count("out." + ("raised" if s[0] == "err" else "completed"))
             add(nest, lim, printed, s, sizes, judge_out(limit, S, s, a), {"async": a, "unlimited_bytes": S, "kind": "out"})
+        # the bound is about EVERY completed render: in lax and warn mode the limit error is dropped per top-level node, the
+        # render completes, and what it returns must still be within the limit (oracle only: the model is the strict engine)
+        for limit in sorted({0, S // 2, S - 1} - {-1}):
+            for mode in ("LAX", "WARN"):
+                for use_async in (False, True):
+                    o = lax_output(printed, limit, mode, use_async)
+                    ck.note_case((nest, limit, mode, use_async), nontrivial=S > limit)
+                    ck.count(f"out.{mode.lower()}." + ("completed" if o[0] == "out" else "raised"))
+                    if o[0] == "out" and L.utf8(o[1]) > limit:
+                        ck.violation("impl-violation", f"c07-{mode.lower()}-output-exceeds-limit",
+                                     f"{printed[0]!r} partials {printed[1]!r} in {mode} mode ({'async' if use_async else 'sync'}) with "
+                                     f"output_stream_limit {limit}: completed with {L.utf8(o[1])} bytes",
+                                     {"kind": "lax-out", "template": printed[0], "partials": printed[1], "data": printed[2], "limit": limit, "mode": mode,
+                                      "async": use_async, "bytes": L.utf8(o[1])})
         big, _, btrue = L.run_impl(nest, L.Limits(ns=BIG), False, printed, want_true=True)
         if big[0] != "out" or not btrue:
             continue
@@ -149,6 +183,12 @@ def run(ck: Check) -> None:
 
 def replay(data) -> int:
     case = data["case"]
+    if case.get("kind") == "lax-out":
+        o = lax_output((case["template"], case["partials"], case.get("data", {})), case["limit"], case["mode"], case["async"])
+        bad = o[0] == "out" and L.utf8(o[1]) > case["limit"]
+        print("template:", case["template"], "partials:", case["partials"], "mode:", case["mode"], "limit:", case["limit"], "->", o)
+        print(("VIOLATION reproduced" if bad else "not reproduced") + f" property={data['property']}")
+        return 1 if bad else 0
     if "main" not in case or data.get("kind") != "impl-violation":
         print("replay names a proof/correspondence obligation:", {k: case[k] for k in case if k != "main"})
         return 1
